@@ -111,8 +111,22 @@ func (c *Calcium) RemoveNode(ctx context.Context, nodename string) error {
 				return nil
 			},
 			// rollback: do nothing
-			func(_ context.Context, _ bool) error {
-				return nil
+			func(ctx context.Context, failedByCond bool) error {
+				if failedByCond {
+					return nil
+				}
+				// if the resource record is still there, put the node's metadata back
+				// (it is not when somebody else has removed the node in the meantime)
+				if _, _, _, err := c.rmgr.GetNodeResourceInfo(ctx, nodename, nil, false); err != nil {
+					return nil
+				}
+				if _, err := c.store.AddNode(ctx, &types.AddNodeOptions{
+					Nodename: node.Name, Endpoint: node.Endpoint, Podname: node.Podname,
+					Ca: node.Ca, Cert: node.Cert, Key: node.Key, Labels: node.Labels, Test: node.Test,
+				}); err != nil {
+					return err
+				}
+				return c.store.UpdateNodes(ctx, node)
 			},
 			c.config.GlobalTimeout)
 	})
